@@ -76,8 +76,16 @@ Definition bmon_quiet (c : bcase) : bool :=
   let cn_ok := match p_conn (b_cfg c) with Conn (Some _) => false | _ => true end in
   if quietb && cn_ok then is_none (o_err c) else true.
 
+(* monitor 5 (body_drained, sniff window): no error => the MIME type set on the URL is what the
+   library detects on exactly the first min(2048, length) bytes of the body (on the empty string
+   in the drain-only configuration) *)
+Definition bmon_mime (c : bcase) : bool :=
+  if is_none (o_err c)
+  then omime_eqb (o_mime c) (Some (if drain_only (b_cfg c) then b_mime_empty c else b_mime_prefix c))
+  else true.
+
 Definition bdiffs (l : list bcase) := bad_idx bdiff_case l.
-Definition bmons (l : list bcase) := mon_idx [bmon_drained; bmon_spool; bmon_closed; bmon_error; bmon_quiet] l.
+Definition bmons (l : list bcase) := mon_idx [bmon_drained; bmon_spool; bmon_closed; bmon_error; bmon_quiet; bmon_mime] l.
 
 (* =============================== leg "discard" =========================================== *)
 (* one case: a hook chain, a discard list, a list of cf-mitigated values (what Header.Get
@@ -224,12 +232,17 @@ Definition accepted (c : wcase) (h : hit) : bool :=
 Definition rejected (c : wcase) (h : hit) : bool :=
   is_resp h && policy_rejectsb (w_dl c) (h_st h) (h_cf h).
 
-(* every accepted exchange of the item has its own request + response/revisit records *)
-Definition stored_all (c : wcase) (hits : list hit) (recs : list rec) : bool :=
-  forallb (fun h => if accepted c h
-                    then (countb (fun h' => accepted c h' && same_exchange h h') hits <=? countb (rec_matches h) recs)%nat
+(* every exchange of the item selected by [want] has its own request + response/revisit records *)
+Definition stored_sel (want : hit -> bool) (hits : list hit) (recs : list rec) : bool :=
+  forallb (fun h => if want h
+                    then (countb (fun h' => want h' && same_exchange h h') hits <=? countb (rec_matches h) recs)%nat
                     else true) hits
-  && (countb (accepted c) hits <=? countb (fun r => is_request r && r_ok r) recs)%nat.
+  && (countb want hits <=? countb (fun r => is_request r && r_ok r) recs)%nat.
+Definition stored_all (c : wcase) := stored_sel (accepted c).
+
+(* the accepted responses archive() itself received (client.Do returned them) *)
+Definition seen_accepted (c : wcase) (h : hit) : bool :=
+  match h_kind h with HResp => accepted c h | _ => false end.
 
 (* monitor 0: after Stop every accepted response is in the WARC, byte-exact, as a request record
    plus a response (or identical-payload revisit) record for exactly that URL, and nothing else
@@ -271,15 +284,43 @@ Definition wmon_members (c : wcase) : bool :=
   forallb (fun it => forallb r_ok (i_at_end it ++ i_at_out it ++ match i_at_written it with Some l => l | None => [] end))
           (w_items c).
 
-(* monitor 4 (all_awaited): sync mode - when the seed leaves the archiver EVERY accepted exchange
-   of its items is in the WARC files, also those of attempts that were retried or given up *)
+(* monitor 4 (all_awaited): sync mode - when the seed leaves the archiver EVERY accepted response
+   archive() received for its items is in the WARC files, also those of attempts that were
+   retried or given up.  (An exchange the transport reports as an error after it was captured -
+   HBadGz - is outside archive()'s reach; it must be stored by the end, monitor 0.) *)
 Definition wmon_all_at_exit (c : wcase) : bool :=
-  if w_async c then true else forallb (fun it => stored_all c (i_hits it) (i_at_out it)) (w_items c).
+  if w_async c then true else forallb (fun it => stored_sel (seen_accepted c) (i_hits it) (i_at_out it)) (w_items c).
 
 (* monitor 5 (attempts_le) *)
 Definition wmon_attempts (c : wcase) : bool :=
   forallb (fun it => (List.length (i_hits it) <=? N.to_nat (w_max_retry c) + 1)%nat) (w_items c).
 
+(* monitor 6 (retry_iff + attempts_le): the sequence of attempts is the one the retry rule gives -
+   every attempt but the last was an error or a response to retry on (5xx, 408, 425, 429, challenge
+   page); a last attempt of that kind means the retries are exhausted and the item failed;
+   otherwise the item is archived (failed when the body could not be read) *)
+Definition retry_specb (h : hit) : bool :=
+  match h_kind h with
+  | HDrop | HBadGz => true
+  | _ => (500 <=? h_st h) || existsb (Z.eqb (h_st h)) [408; 425; 429] || challengeb (h_st h) (h_cf h)
+  end.
+Definition wmon_retry_rule (c : wcase) : bool :=
+  forallb (fun it =>
+    match rev (i_hits it) with
+    | [] => true
+    | last :: before =>
+        forallb retry_specb before &&
+        (if retry_specb last
+         then (List.length (i_hits it) =? N.to_nat (w_max_retry c) + 1)%nat
+              && match i_final it with FFailed => true | _ => false end
+         else match h_kind last, i_final it with
+              | HTrunc, FFailed => true
+              | HTrunc, _ => false
+              | _, FArchived => true
+              | _, _ => false
+              end)
+    end) (w_items c).
+
 Definition wdiffs (l : list wcase) := bad_idx wdiff_case l.
 Definition wmons (l : list wcase) :=
-  mon_idx [wmon_stored_at_end; wmon_written_at_archived; wmon_rejected_absent; wmon_members; wmon_all_at_exit; wmon_attempts] l.
+  mon_idx [wmon_stored_at_end; wmon_written_at_archived; wmon_rejected_absent; wmon_members; wmon_all_at_exit; wmon_attempts; wmon_retry_rule] l.
